@@ -318,7 +318,42 @@ def run_arity(shard, ctx):
         elif not accepted:
             r.count('arity_in_table_but_rejected')   # allowed by the statement (library may reject); recorded for the evidence
             r.seen('in_table_but_rejected', text)
-    r.sample({'arity': ['=ROUND(A1/3)', '=IF(A1>1)', '=TODAY(1)', '=SUMIFS(B3:B5,A3:A5)']})
+    # the LAST argument left empty (a separator right in front of the closing bracket), for every function at every argument count: refused
+    # - or, where the grammar defines that shape, the value of the call with 0 in that place (ROUNDUP / ROUNDDOWN: no digits). Never the value
+    # of the call WITHOUT the argument when that is another value (LEFT("abc",) is not LEFT("abc")).
+    tcells = dict(BASEC)
+    twhere = {}
+    k = 0
+    for name, (allowed, args) in ARITY.items():
+        for n in range(1, 7):
+            a_ = [args[min(i, len(args) - 1)] for i in range(n)]
+            for sep in (',', ';', ', ', ' ;'):
+                k += 1
+                row = 8 + (k - 1) % 60
+                col = wbspec.get_column_letter(10 + 3 * ((k - 1) // 60))
+                text = f'={name}({",".join(a_)}{sep})'
+                tcells[f'{col}{row}'] = text
+                twhere[f'{col}{row}'] = (text, name, n, f'={name}({",".join(a_)},0)', f'={name}({",".join(a_)})')
+    tspec = wbspec.spec(wbspec.sheet('S1', tcells))
+    tbook = pipeline.Book(tspec, ctx.workdir, name='trail', per_cell=True, cells_of_interest=[])
+    for a, (text, name, n, with_zero, without) in twhere.items():
+        out, _ = observe(tbook, 0, a, tmon)
+        r.ev()
+        r.count('trailing_empty_argument_texts')
+        r.nt(text)
+        if out.kind == 'FOREIGN_EXC' and out.phase != 'evaluate':
+            report(r, ID, None, {'text': text, 'how': 'trailing-empty-argument'}, out.brief(), 'E2PyclParserException', monitor='reject-with-parser-exception')
+        elif out.ok or out.phase == 'evaluate':
+            # accepted: the empty place is 0 / blank, as in the call that writes it out
+            r.count('trailing_empty_argument_accepted')
+            r.seen('trailing_empty_argument_accepted_for', f'{name}/{n}')
+            zb = pipeline.Book(wbspec.spec(wbspec.sheet('S1', dict(BASEC, J8=with_zero))), ctx.workdir, name='trail0', per_cell=True, cells_of_interest=[])
+            oz, _ = observe(zb, 0, 'J8', tmon)
+            same = (out.ok and oz.ok and evalr_norm(out.value) == evalr_norm(oz.value) and type(out.value) is type(oz.value)) or (not out.ok and not oz.ok)
+            if not same:
+                report(r, ID, None, {'text': text, 'how': 'trailing-empty-argument', 'written_out': with_zero}, out.brief(), oz.brief(),
+                       monitor='empty-argument-accepted')
+    r.sample({'arity': ['=ROUND(A1/3)', '=IF(A1>1)', '=TODAY(1)', '=SUMIFS(B3:B5,A3:A5)'], 'trailing_empty': ['=LEFT(C2,)', '=ROUNDUP(A1/3;)']})
 
 
 def _count_args(text):
